@@ -128,13 +128,14 @@
      override in t, else in the nearest active task below t), or the initial value when there is none.
    C07_values_restored_rtree0: at every flush point and when the outermost call has returned every scoped variable is
      back to its initial value.
+   C07_contexts_nest_lifo_rtree0 (T3), C07_saved_values_rtree0, C07_layer_owners_await_rtree0: the LIFO step theorem
+     (a read step leaves [layers] unchanged), the save-and-restore invariant and "layer owners await the running task"
+     for rtree0, by the same transport (layers, ci_old and dependency lists are untouched by the erasure).
    C07_async_eq_seq_rtree0: value() = Seq.eval (erase p) (the C01 equation; reads do not influence the result in this class).
    C07_rtree0_hypotheses_are_met: a parent with two nested overrides reads 0 / 20, its child reads the parent's 20,
      its own 30, blocks on a batch item, reads 30 again after the flush, 20 after its block; the parent reads 20, 10, 0.
    NOT PROVED: programs that BRANCH on the values read (an rtree class with a sequential evaluator with dynamic
-     scoping, evalV / resolve, is not started); reads combined with synchronous calls (stree); T3 (LIFO) and the
-     saved-values invariant are not restated for rtree0 (they follow the same way: layers and ci_old are untouched by
-     the erasure).  These remain covered by the correspondence harness + monitors.
+     scoping, evalV / resolve, is not started); reads combined with synchronous calls (stree).  These remain covered by the correspondence harness + monitors.
 
    ---------------------------------------------------------------------------------------------------------
    DAGs (end of this file; proofs/MachineC07D.v): no general theorem - shared futures stay outside the proved classes.
